@@ -684,9 +684,13 @@ def gen_population(rng, schema, n, **kw):
 
 WRONG_KIND = {   # attribute kind -> literals of *another* kind
     "INTEGER": ["'abc'", ".T.", "#REF", "(1)", '"0F"', "1.5X"], "DEF_INT": ["'abc'", ".T."],
-    "REAL": ["'abc'", ".T.", "#REF", "(1.5)"], "DEF_REAL": ["'abc'", ".F."], "NUMBER": ["'abc'", ".T.", "#REF"],
-    "STRING": ["5", "1.5", ".T.", "#REF", "(1)"], "BOOLEAN": ["5", "'T'", "#REF", "1.5"], "LOGICAL": ["5", "'U'", "#REF"],
-    "BINARY": ["5", "'0F'", ".T.", "#REF"], "ENUM": ["5", "'RED'", "#REF", "1.5"],
+    # (the shapes the detection lemmas of Props/C03.lean exclude are generated too: a REAL that starts with the exponent
+    #  letter or the point, an enumeration item / boolean without its dots, a string without apostrophes)
+    "REAL": ["'abc'", ".T.", "#REF", "(1.5)", "E5", "e", ".E1", "-", "+.", "ABC"], "DEF_REAL": ["'abc'", ".F.", "E+5"],
+    "NUMBER": ["'abc'", ".T.", "#REF", "E5", "-"],
+    "STRING": ["5", "1.5", ".T.", "#REF", "(1)", "abc", "\"0F\""], "BOOLEAN": ["5", "'T'", "#REF", "1.5", "T", "TRUE", ".T"],
+    "LOGICAL": ["5", "'U'", "#REF", "U", ".U"],
+    "BINARY": ["5", "'0F'", ".T.", "#REF", "0F", "\"0G\"", "\"0F"], "ENUM": ["5", "'RED'", "#REF", "1.5", "RED", ".RED", "RED."],
     "ENTITY": ["5", "'#1'", ".T.", "1.5", "(#REF)"],
     "AGG_INT": ["5", "'a'", "#REF"], "AGG_REAL": ["1.5", "'a'"], "AGG_STR": ["'a'", "5"], "AGG_ENT": ["#REF", "5"],
     "AGG_ENTS": ["#REF", "'a'"], "AGG_SEL": ["#REF", "5"], "AGG_SELE": ["#REF", ".T."], "AGG_AGG": ["5", "'a'"],
